@@ -62,6 +62,12 @@ def main():
     alt("BERR changed", lambda d: d["berr"].__setitem__(0, [1, 3]))
     alt("U value changed", lambda d: d["L"]["nzval"].__setitem__(0, [5, 0]))
     alt("B reported modified", lambda d: d["B1"][0].__setitem__(0, [7, 0]))
+    # the phases the driver reports (hooks P:Phase, spec/SluDriver.tla) and the tree it hands back
+    alt("Solve phase removed", lambda d: d.__setitem__("phases", [p for p in d["phases"] if p != "Solve"]))
+    alt("ScaleB phase inserted", lambda d: d["phases"].insert(d["phases"].index("CopyBX"), "ScaleB"))
+    alt("Refine phase removed", lambda d: d.__setitem__("phases", [p for p in d["phases"] if p != "Refine"]))
+    alt("Equil phase inserted", lambda d: d["phases"].insert(0, "Equil"))
+    alt("etree entry changed", lambda d: d["etree"].__setitem__(0, d["etree"][0] + 1 if d["etree"][0] < 4 else 2))
     # dropped events
     t3 = [l for i, l in enumerate(tr) if i != k]
     bad = verdict_bad(t3, "dropret")
